@@ -95,7 +95,20 @@ enum GOp {
     /// what snapshot import does: stubs, column properties (new stubs, or live nodes lacking
     /// the key), relationship stubs / relationships with properties between live nodes, then
     /// finish_bulk_load()
-    Bulk { stubs: Vec<u8>, cols: Vec<(NRef, u8, i64)>, edges: Vec<(NRef, NRef, u8, Option<i64>)> },
+    ///
+    /// `compactions`: a chunked load (benches/memory_footprint.rs --compact-every; the old import
+    /// path compacted itself before the rebuilds): after the relationship with index `pos`
+    /// (any pos >= edges.len() = after the last one, i.e. immediately before finish_bulk_load)
+    /// run kind 0 = compact_adjacency(), 1 = compact_adjacency_if_needed(0),
+    /// 2 = compact_adjacency_if_needed(2). The block is still observed only after
+    /// finish_bulk_load().
+    Bulk {
+        stubs: Vec<u8>,
+        cols: Vec<(NRef, u8, i64)>,
+        edges: Vec<(NRef, NRef, u8, Option<i64>)>,
+        #[serde(default)]
+        compactions: Vec<(u8, u8)>,
+    },
 }
 
 /// Quirk switches of the reference model = confirmed deviations of the engine (known findings).
@@ -155,6 +168,8 @@ struct Model {
     used_multiseg: bool,
     compactions: u32,
     bulk_blocks: u32,
+    chunked_blocks: u32,
+    finish_on_empty_buffer: u32,
 }
 
 fn sorted_insert(list: &mut Vec<(u64, u64)>, key: u64, eid: u64) {
@@ -187,6 +202,8 @@ impl Model {
             used_multiseg: false,
             compactions: 0,
             bulk_blocks: 0,
+            chunked_blocks: 0,
+            finish_on_empty_buffer: 0,
         }
     }
     fn free_slot(&self) -> Option<usize> {
@@ -548,8 +565,10 @@ fn c06_exec(store: &mut GraphStore, m: &mut Model, op: &GOp) -> Result<bool, Str
             store.compact_adjacency();
             m.compact();
         }
-        GOp::Bulk { stubs, cols, edges } => {
+        GOp::Bulk { stubs, cols, edges, compactions } => {
             m.bulk_blocks += 1;
+            let mut chunked = false;
+            let mut stub_edges = 0u32;
             let mut new_ids: Vec<Option<u64>> = Vec::new();
             for l in stubs {
                 match m.free_slot() {
@@ -579,22 +598,63 @@ fn c06_exec(store: &mut GraphStore, m: &mut Model, op: &GOp) -> Result<bool, Str
                 store.set_column_property(NodeId::new(id), NKEYS[*k as usize % 2], gval(*v));
                 m.nodes.get_mut(&id).unwrap().props.insert(k % 2, gval(*v));
             }
-            for (a, b, ty, w) in edges {
-                let (s, d) = match (resolve(m, a), resolve(m, b)) {
-                    (Some(s), Some(d)) => (s, d),
-                    _ => continue,
-                };
-                match w {
-                    None => {
-                        let eid = store.create_edge_stub(NodeId::new(s), NodeId::new(d), type_of(*ty)).map_err(|e| format!("create_edge_stub between live nodes refused: {e}"))?;
-                        m.add_edge(eid.as_u64(), s, d, ty % 2, BTreeMap::new(), true)?;
+            // compaction between chunks of the load
+            let mut compact_at = |store: &mut GraphStore, m: &mut Model, pos_now: usize, last: bool| -> Result<(), String> {
+                for (pos, kind) in compactions {
+                    let here = if last { *pos as usize >= pos_now } else { *pos as usize == pos_now };
+                    if !here {
+                        continue;
                     }
-                    Some(w) => {
-                        let (h, bm) = pmap(&EKEYS, &[(0, *w)]);
-                        let eid = store.create_edge_with_properties(NodeId::new(s), NodeId::new(d), type_of(*ty), h).map_err(|e| format!("create_edge_with_properties in bulk block refused: {e}"))?;
-                        m.add_edge(eid.as_u64(), s, d, ty % 2, bm, false)?;
+                    let buffered: usize = m.buf_out.values().map(|v| v.len()).sum();
+                    match kind % 3 {
+                        0 => {
+                            store.compact_adjacency();
+                            if buffered > 0 {
+                                chunked = true;
+                            }
+                            m.compact();
+                        }
+                        k => {
+                            let threshold = if k == 1 { 0 } else { 2 };
+                            let want = buffered > 0 && buffered >= threshold;
+                            let ran = store.compact_adjacency_if_needed(threshold);
+                            if ran != want {
+                                return Err(format!("compact_adjacency_if_needed({threshold}) returned {ran} with {buffered} relationships in the write buffer"));
+                            }
+                            if ran {
+                                chunked = true;
+                                m.compact();
+                            }
+                        }
                     }
                 }
+                Ok(())
+            };
+            for (i, (a, b, ty, w)) in edges.iter().enumerate() {
+                if let (Some(s), Some(d)) = (resolve(m, a), resolve(m, b)) {
+                    match w {
+                        None => {
+                            let eid = store.create_edge_stub(NodeId::new(s), NodeId::new(d), type_of(*ty)).map_err(|e| format!("create_edge_stub between live nodes refused: {e}"))?;
+                            m.add_edge(eid.as_u64(), s, d, ty % 2, BTreeMap::new(), true)?;
+                            stub_edges += 1;
+                        }
+                        Some(w) => {
+                            let (h, bm) = pmap(&EKEYS, &[(0, *w)]);
+                            let eid = store.create_edge_with_properties(NodeId::new(s), NodeId::new(d), type_of(*ty), h).map_err(|e| format!("create_edge_with_properties in bulk block refused: {e}"))?;
+                            m.add_edge(eid.as_u64(), s, d, ty % 2, bm, false)?;
+                        }
+                    }
+                }
+                if i + 1 < edges.len() {
+                    compact_at(store, m, i, false)?;
+                }
+            }
+            compact_at(store, m, edges.len().saturating_sub(1), true)?;
+            if chunked {
+                m.chunked_blocks += 1;
+            }
+            if stub_edges > 0 && m.buf_out.values().all(|v| v.is_empty()) {
+                m.finish_on_empty_buffer += 1;
             }
             store.finish_bulk_load();
             m.compact();
@@ -771,6 +831,21 @@ fn c06_compare(store: &GraphStore, m: &mut Model) -> Result<(), String> {
         }
     }
 
+    let listed_types: BTreeSet<String> = store.all_edge_types().iter().map(|t| t.as_str().to_string()).collect();
+    for e in m.edges.values() {
+        if !listed_types.contains(TYPES[e.ty as usize]) {
+            return Err(format!("all_edge_types() = {listed_types:?} misses {}, which live relationships carry", TYPES[e.ty as usize]));
+        }
+    }
+    let listed_labels: BTreeSet<String> = store.all_labels().iter().map(|l| l.as_str().to_string()).collect();
+    for n in m.nodes.values() {
+        for l in &n.labels {
+            if !listed_labels.contains(LABELS[*l as usize]) {
+                return Err(format!("all_labels() = {listed_labels:?} misses {}, which live nodes carry", LABELS[*l as usize]));
+            }
+        }
+    }
+
     // ---- adjacency
     let ever: Vec<u64> = m.ever_nodes.iter().copied().collect();
     for &n in &ever {
@@ -888,6 +963,8 @@ struct RunInfo {
     applied: u32,
     compactions: u32,
     bulk_blocks: u32,
+    chunked_blocks: u32,
+    finish_on_empty_buffer: u32,
     used: Vec<&'static str>,
 }
 
@@ -914,6 +991,8 @@ fn c06_run(ops: &[GOp], q: Q6, max_slots: usize, check_all: bool) -> Result<RunI
     info.nontrivial = m.nt_delete_after_compact || m.nt_id_reuse;
     info.compactions = m.compactions;
     info.bulk_blocks = m.bulk_blocks;
+    info.chunked_blocks = m.chunked_blocks;
+    info.finish_on_empty_buffer = m.finish_on_empty_buffer;
     if m.used_frozen {
         info.used.push("KF-C06-1");
     }
@@ -981,10 +1060,14 @@ fn c06_alphabet() -> Vec<GOp> {
     a.push(GOp::SetEdgeProp { nth: 0, key: 1, val: 4 });
     a.push(GOp::RemoveEdgeProp { nth: 0, key: 0 });
     a.push(GOp::Compact);
-    a.push(GOp::Bulk { stubs: vec![0], cols: vec![(NRef::New(0), 0, 1)], edges: vec![] });
-    a.push(GOp::Bulk { stubs: vec![], cols: vec![], edges: vec![(NRef::Slot(0), NRef::Slot(1), 0, None)] });
-    a.push(GOp::Bulk { stubs: vec![1], cols: vec![(NRef::Slot(0), 1, 2)], edges: vec![(NRef::Slot(0), NRef::New(0), 0, None)] });
-    a.push(GOp::Bulk { stubs: vec![0, 1], cols: vec![(NRef::New(1), 0, 3)], edges: vec![(NRef::New(1), NRef::New(0), 1, None), (NRef::New(0), NRef::New(0), 0, Some(1)), (NRef::New(1), NRef::New(0), 0, None)] });
+    a.push(GOp::Bulk { stubs: vec![0], cols: vec![(NRef::New(0), 0, 1)], edges: vec![], compactions: vec![] });
+    a.push(GOp::Bulk { stubs: vec![], cols: vec![], edges: vec![(NRef::Slot(0), NRef::Slot(1), 0, None)], compactions: vec![] });
+    a.push(GOp::Bulk { stubs: vec![1], cols: vec![(NRef::Slot(0), 1, 2)], edges: vec![(NRef::Slot(0), NRef::New(0), 0, None)], compactions: vec![] });
+    a.push(GOp::Bulk { stubs: vec![0, 1], cols: vec![(NRef::New(1), 0, 3)], edges: vec![(NRef::New(1), NRef::New(0), 1, None), (NRef::New(0), NRef::New(0), 0, Some(1)), (NRef::New(1), NRef::New(0), 0, None)], compactions: vec![] });
+    // chunked loads: compaction inside the block, finish_bulk_load on an empty / non-empty buffer
+    a.push(GOp::Bulk { stubs: vec![], cols: vec![], edges: vec![(NRef::Slot(0), NRef::Slot(1), 0, None)], compactions: vec![(255, 0)] });
+    a.push(GOp::Bulk { stubs: vec![1], cols: vec![], edges: vec![(NRef::Slot(0), NRef::New(0), 0, None), (NRef::New(0), NRef::Slot(0), 1, None)], compactions: vec![(0, 1)] });
+    a.push(GOp::Bulk { stubs: vec![0], cols: vec![], edges: vec![(NRef::New(0), NRef::New(0), 1, None), (NRef::Slot(0), NRef::New(0), 0, None)], compactions: vec![(0, 0), (1, 1)] });
     a
 }
 
@@ -1006,12 +1089,13 @@ fn c06_op_strategy(slots: u8) -> BoxedStrategy<GOp> {
         1 => (0..6u8, 0..2u8, 0..6i64).prop_map(|(nth, key, val)| GOp::SetEdgeProp { nth, key, val }),
         1 => (0..6u8, 0..2u8).prop_map(|(nth, key)| GOp::RemoveEdgeProp { nth, key }),
         4 => Just(GOp::Compact),
-        3 => (
+        4 => (
             proptest::collection::vec(0..2u8, 0..3),
             proptest::collection::vec((nref(), 0..2u8, 0..6i64), 0..3),
-            proptest::collection::vec((nref(), nref(), 0..2u8, prop_oneof![3 => Just(None), 1 => (0..6i64).prop_map(Some)]), 0..4)
+            proptest::collection::vec((nref(), nref(), 0..2u8, prop_oneof![3 => Just(None), 1 => (0..6i64).prop_map(Some)]), 0..5),
+            prop_oneof![2 => Just(Vec::new()), 3 => proptest::collection::vec((prop_oneof![3 => 0..4u8, 2 => Just(255u8)], 0..3u8), 1..=2)]
         )
-            .prop_map(|(stubs, cols, edges)| GOp::Bulk { stubs, cols, edges }),
+            .prop_map(|(stubs, cols, edges, compactions)| GOp::Bulk { stubs, cols, edges, compactions }),
     ]
     .boxed()
 }
@@ -1026,7 +1110,7 @@ fn c06(args: &Args) {
     let mut ev = Evidence::new(
         args,
         "exploration",
-        "operation sequences over {create_node / create_node_with_labels / create_node_with_properties, create_edge(_with_properties), delete_edge, delete_node, add/remove label, set/remove node and relationship property, compact_adjacency, bulk block (create_node_stub, set_column_property, create_edge_stub / create_edge_with_properties, finish_bulk_load)} on 3 (exhaustive) or 5 (random) node slots, labels {A,B}, types {R,S}: bounded-exhaustive over a fixed alphabet (every prefix is a case, compared after its last step) plus random sequences to length 80 (compared after every step); every read view named in the property compared with a plain reference graph. Non-trivial = the sequence deletes a relationship that was compacted into the frozen tier before, or a node/relationship id is handed out a second time; distinct = distinct op sequences.",
+        "operation sequences over {create_node / create_node_with_labels / create_node_with_properties, create_edge(_with_properties), delete_edge, delete_node, add/remove label, set/remove node and relationship property, compact_adjacency, bulk block (create_node_stub, set_column_property, create_edge_stub / create_edge_with_properties, optionally chunked by compact_adjacency / compact_adjacency_if_needed between relationships or right before the end, closed by finish_bulk_load)} on 3 (exhaustive) or 5 (random) node slots, labels {A,B}, types {R,S}: bounded-exhaustive over a fixed alphabet (every prefix is a case, compared after its last step) plus random sequences to length 80 (compared after every step); every read view named in the property compared with a plain reference graph. Non-trivial = the sequence deletes a relationship that was compacted into the frozen tier before, or a node/relationship id is handed out a second time; distinct = distinct op sequences.",
     );
     ev.assume("bulk-block preconditions taken from snapshot import: stubs and set_column_property only for keys the node does not hold yet, relationship stubs only between live nodes, block always closed by finish_bulk_load and not observed in between");
     ev.assume("single MVCC version (current_version never advanced): versioned reads are C07's subject");
@@ -1087,6 +1171,12 @@ fn c06(args: &Args) {
             }
             if i.bulk_blocks > 0 {
                 ev.class("has_bulk_block");
+            }
+            if i.chunked_blocks > 0 {
+                ev.class("bulk_block_chunked_by_compaction");
+            }
+            if i.finish_on_empty_buffer > 0 {
+                ev.class("finish_bulk_load_on_empty_write_buffer");
             }
             if i.compactions > 1 {
                 ev.class("multi_segment");
